@@ -2,6 +2,7 @@ import collections
 import collections.abc
 import datetime
 import enum
+import inspect
 import ipaddress
 import os
 import pathlib
@@ -36,6 +37,7 @@ from mashumaro.core.meta.helpers import (
     get_class_that_defines_method,
     get_function_arg_annotation,
     get_literal_values,
+    get_type_origin,
     get_type_var_default,
     is_builtin_type,
     is_final,
@@ -1338,9 +1340,19 @@ def unpack_collection(spec: ValueSpec) -> Optional[Expression]:
         )
     elif ensure_generic_mapping(spec, args, collections.defaultdict):
         spec.builder.ensure_module_imported(collections)
-        default_type = type_name(args[1] if args else None)
+        # the factory must be callable: the class behind the value type
+        default_type = get_type_origin(args[1]) if args else None
+        if isinstance(default_type, type) and not inspect.isabstract(
+            default_type
+        ):
+            spec.builder.add_type_modules(default_type)
+            default_factory = spec.builder.get_type_name_identifier(
+                default_type
+            )
+        else:
+            default_factory = "None"
         return (
-            f"collections.defaultdict({default_type}, "
+            f"collections.defaultdict({default_factory}, "
             f"{{{inner_expr(0, 'key')}: "
             f"{inner_expr(1)} for key, value in {spec.expression}.items()}})"
         )
